@@ -117,7 +117,12 @@ def _sympify_function(func_name: str, func: Callable) -> type[sympy.Function]:
 def _value_of(expr: Expr) -> Number | None:
     """Compute a numerical value of an expression, return None if it's not possible."""
     try:
-        value = N(expr).round(n=NUM_DIGITS_PRECISION)
+        value = N(expr)
+        if value.is_Float and value != 0 and value.is_finite:
+            # NUM_DIGITS_PRECISION significant digits (not decimal places: 1.23456789e-10 keeps all of its digits)
+            value = value.round(n=NUM_DIGITS_PRECISION - 1 - int(sympy.floor(sympy.log(abs(value), 10))))
+        else:
+            value = value.round(n=NUM_DIGITS_PRECISION)
     except TypeError:
         # Raised, with various messages, whenever the expression has no numerical value yet
         # (free symbols, unevaluated sums or products with symbolic limits, ...).
